@@ -207,6 +207,11 @@ structure WS (s : St) : Prop where
 /-- every scheduled timer belongs to a pending wait (true after every drain) -/
 def TInv (s : St) : Prop := ∀ t ∈ s.timers, isPend s.futs t.2 = true
 
+/-- scheduled timer ids are in range (also true between the calls of one loop iteration, where `TInv` is not) -/
+def TR (s : St) : Prop := ∀ t ∈ s.timers, t.2 < s.futs.length
+
+theorem TR_of_TInv {s : St} (ht : TInv s) : TR s := fun t h => isPend_lt (ht t h)
+
 /-- no scheduled timer is due (true after every drain) -/
 def NotDue (s : St) : Prop := ∀ t ∈ s.timers, s.now < t.1
 
@@ -392,7 +397,7 @@ theorem TInv_settle (s : St) : TInv (settle s).1 := TInv_purge (fireDue (purge s
 
 /-! ### the calls -/
 
-theorem wait_sim {s : St} (hw : WS s) (ht : TInv s) (d : Option Nat) :
+theorem wait_sim {s : St} (hw : WS s) (ht : TR s) (d : Option Nat) :
     Spec.Event.wait (absF s) d = (absF (wait s d).1, (wait s d).2) := by
   have hq : ∀ x : FState, s.waiters.filter (isPend (s.futs ++ [x])) = s.waiters.filter (isPend s.futs) := by
     intro x
@@ -404,7 +409,7 @@ theorem wait_sim {s : St} (hw : WS s) (ht : TInv s) (d : Option Nat) :
     intro x
     apply List.filter_congr
     intro t ht'
-    exact isPend_append_lt (isPend_lt (ht t ht'))
+    exact isPend_append_lt (ht t ht')
   have hf : (absF s).flag = s.flag := rfl
   unfold Spec.Event.wait wait
   rw [hf]
@@ -679,7 +684,7 @@ theorem step_sim {s : St} (h : Inv s) (hw : WS s) (ht : TInv s) (hn : NotDue s) 
   cases op with
   | wait d =>
     rw [step_wait_eq]
-    simp only [Spec.Event.step, wait_sim hw ht, settle_sim (inv_wait h d) (ws_wait hw d), vis_mkOut, vis_mk,
+    simp only [Spec.Event.step, wait_sim hw (TR_of_TInv ht), settle_sim (inv_wait h d) (ws_wait hw d), vis_mkOut, vis_mk,
       and_self]
   | set =>
     obtain ⟨e1, e2⟩ := settle_notDue (inv_set h []) (ws_set hw []) (notDue_set hn [])
